@@ -12,7 +12,7 @@ TECHNIQUE = "runtime monitoring: ThreadSanitizer build of the real Stats server 
 RULE = ("one process per batch under ThreadSanitizer, a fresh Stats instance per history: 3-4 threads x 3-5 operations from {increment, set, "
         "reset, getAll, socket `g`/`r` via StatsClient, raw socket clients} on 2 keys, every call recorded at the client boundary "
         "{thread, op, args, call seq, result, return seq} and searched for a linearization against a sequential map; long conservation runs "
-        "(N threads x M increments => exact sums, reset zeroes but keeps every key); hundreds of tiny histories on a fresh service in which a counter is created under contention (exact sums) and of reset against readers and updaters of two keys; raw clients: all 256 first bytes x {\\n, \\0, EOF, 31 "
+        "(N threads x M increments => exact sums, reset zeroes but keeps every key); hundreds of tiny histories on a fresh service in which a counter is created under contention (exact sums) and of reset against readers and updaters of two keys; snapshot histories (each writer bumps its own two existing counters in a fixed order among 0-300 other counters; every getAll / `g` reply must show them 0 or 1 apart: a reply is one snapshot); raw clients: all 256 first bytes x {\\n, \\0, EOF, 31 "
         "more bytes, 40 bytes}, random strings, half-close, RST, close before reading the reply, stall past the 2 s timeout: each "
         "connection (incl. slow but live readers of a several-hundred-KiB `g` reply over 12000-40000 counters) gets <=1 reply which is JSON with error in {0,1} matching the mode byte and a body object, then EOF; the server "
         "survives (SIGPIPE has its default disposition, as in oomd) and keeps serving; ~Stats completes with clients dangling in every "
@@ -74,6 +74,22 @@ def gen_conservation(rng):
     nth, m = rng.choice([(4, 300), (8, 150)]), None
     nth, m = nth
     return {"init": {}, "threads": [[{"op": "inc", "k": KEYS[(t + i) % 2], "v": 1} for i in range(m)] + [{"op": "get"}] for t in range(nth)], "conservation": [nth, m]}
+
+
+def gen_snapshot(rng):
+    """a reply is ONE snapshot of the table: each writer bumps its own two (existing) counters strictly in the order first, second,
+    so in any snapshot 0 <= first - second <= 1; readers (direct and over the socket) look at both in the same reply while a few
+    hundred other counters make the copy take its time"""
+    nw = rng.choice([2, 3, 4])
+    init = {"f%03d" % i: i for i in range(rng.choice([0, 100, 300]))}
+    ths = []
+    for w in range(nw):
+        init["p%da" % w] = 0
+        init["p%db" % w] = 0
+        ths.append([{"op": "inc", "k": "p%d%s" % (w, ab), "v": 1} for _ in range(rng.choice([150, 300])) for ab in "ab"])
+    for _ in range(2):
+        ths.append([{"op": rng.choice(["get", "get", "cget"])} for _ in range(rng.choice([100, 200]))])
+    return {"init": init, "threads": ths, "snapshot": nw}
 
 
 def raw(bytes_, behave="normal", **kw):
@@ -146,6 +162,8 @@ def cases(seed, tier):
         scns.append({"mode": "histories", "seed": rng.randint(1, 10**6), "yield_us": rng.choice([0, 10, 50]), "mutex_yield_ppm": rng.choice([0, 20000, 200000]), "histories": hs[i:i + per], "kind": "lin"})
     for _ in range(2 if quick else 10):
         scns.append({"mode": "histories", "seed": rng.randint(1, 10**6), "histories": [gen_conservation(rng)], "kind": "conservation"})
+    for _ in range(4 if quick else 30):
+        scns.append({"mode": "histories", "seed": rng.randint(1, 10**6), "yield_us": 0, "mutex_yield_ppm": rng.choice([0, 20000]), "histories": [gen_snapshot(rng)], "kind": "snapshot"})
     allb = list(range(256))
     chunks = [allb[i:i + 32] for i in range(0, 256, 32)] if not quick else [[ord("g"), ord("r"), ord("0"), ord("a"), 0, 10, 255, ord("G")], rng.sample(allb, 24)]
     for ch in chunks:
@@ -258,6 +276,22 @@ def judge_history(v, scn, h, hout):
         if fin != want:
             v.bad("lost-update", "key-creation", "fresh service, threads %s: final counters %s, sum of the increments %s" % (
                 [[(o["op"], o.get("k"), o.get("v")) for o in th] for th in h["threads"]], fin, want))
+    if h.get("snapshot"):
+        for o in lin_ops:
+            if o["op"] in ("get", "cget") and isinstance(o.get("res"), dict):
+                v.count("snapshot_replies_audited")
+                for w in range(h["snapshot"]):
+                    a_, b_ = o["res"].get("p%da" % w), o["res"].get("p%db" % w)
+                    if a_ is None or b_ is None or not (0 <= a_ - b_ <= 1):
+                        v.bad("torn-snapshot", "", "one %s reply shows p%da=%s p%db=%s; the only writer of both increments a then b, so a - b is 0 or 1 in every consistent snapshot (%d other counters in the table)" % (
+                            o["op"], w, a_, w, b_, len(h["init"]) - 2 * h["snapshot"]))
+                        return overlap
+        fin = hout["final"]
+        for w in range(h["snapshot"]):
+            n_ = sum(1 for o in h["threads"][w] if o["k"].endswith("a"))
+            if fin.get("p%da" % w) != n_ or fin.get("p%db" % w) != n_:
+                v.bad("lost-update", "snapshot", "writer %d incremented each of its counters %d times, final %s / %s" % (w, n_, fin.get("p%da" % w), fin.get("p%db" % w)))
+        return overlap
     if h.get("conservation"):
         nth, m = h["conservation"]
         fin = hout["final"]
